@@ -37,6 +37,11 @@ def gen_cases(ctx):
         dim = 1 << n
         cols = list(range(dim)) if ncols is None or ncols >= dim else sorted(rng.sample(range(dim), ncols))
         ins = [rand_vec(rng, n, rng.choice(["generic", "normalised"])) for _ in range(nins)]
+        if n <= 6:      # superpositions with exact zeros and purely real / imaginary amplitudes, e.g. (|00> + i|11>)/sqrt 2
+            ins.append(rand_vec(rng, n, "axis"))
+            if n >= 2:
+                v = [0.0] * (2 << n); v[0] = 0.7071067811865476; v[(2 << n) - 1] = 0.7071067811865476
+                ins.append([float2bits(x) for x in v])
         cases.append({"op": "qft", "n": n, "qs": qs, "inverse": inverse, "cols": cols, "ins": ins,
                       "thr": thr if thr is not None else rng.choice([10, 10, 1])})
     if not ctx.thorough():
